@@ -35,7 +35,7 @@ GO2LEAN = {"targets": [
 INPKG = ["internal/remoteclient/zz_verif_c27.go"]
 TIMEOUT = 900
 MANIFEST = {
-    "level_text": "Kernel-checked theorems over a small-step interleaving model of coalescer.submit/run/close and the failure fan-out, for ALL schedules of any length with any number of sending goroutines, any transport outcome per batch, any resolution of Go's random select, close and shutdown at any point: global FIFO (flushed batches ++ writer batch ++ channel = acceptance log, C27_fifo), per-thread send order and at-most-once (C27_order), nothing reaches the transport unaccepted (C27_no_phantom), and an exact account of where every accepted message is in a quiescent state (C27_loss_sites). The accounting clause of the property is REFUTED for the current code (C27_refuted; findings C27-F1 close/racing submit, C27-F2 fan-out drops) and proved under the guards no-close and no-handler-drop (C27_partial). The model is tied to the code by running the real Client.RemoteTell / coalescer goroutine / Client.Close against a gate-controlled in-process proto server and comparing batch boundaries, submit results, handler calls and the channel leftover with the model's output set.",
+    "level_text": "Kernel-checked theorems over a small-step interleaving model of coalescer.submit/run/close and the failure fan-out, for ALL schedules of any length with any number of sending goroutines, any transport outcome per batch, any resolution of Go's random select, close and shutdown at any point: global FIFO (flushed batches ++ writer batch ++ channel = acceptance log, C27_fifo), per-thread send order and at-most-once (C27_order), nothing reaches the transport unaccepted (C27_no_phantom), and an exact account of where every accepted message is in a quiescent state (C27_loss_sites). The accounting clause of the property is REFUTED for the current code (C27_refuted; open findings C27-F3 submit racing close, C27-F2 fan-out drops; C27-F1 close abandoning queued batches was fixed by 305110c and is a regression corpus + theorem witnessClose_facts) and proved under the guards no-close and no-handler-drop (C27_partial). The model is tied to the code by running the real Client.RemoteTell / coalescer goroutine / Client.Close against a gate-controlled in-process proto server and comparing batch boundaries, submit results, handler calls and the channel leftover with the model's output set.",
     "level_note": "partial: (1) the tie is a differential on controller-serialised schedules (the controller acts only while the writer is parked in a flush or idle); finer interleavings of submit's three steps with the writer (e.g. the submit-racing-close witness) exist only in the model; (2) enqueueCoalescedFailure / drainCoalescedFailures (actor/remote_server.go) are modelled and the queue-size constant is regenerated from source, but they are not driven by the harness; dead-letter publication itself is C18; (3) the remote node's in-order handling of a batch (remoteTellHandler's loop, handleConn's sequential read loop) and TCP are assumptions; (4) a flush that fails after the remote node already processed it is both delivered and dead-lettered (at-most-once is about the coalescer never re-sending).",
     "technique": "Lean 4 proof (inductive invariants over a small-step interleaving semantics) + model/implementation differential on gate-controlled runs of the real goroutines",
 }
@@ -193,8 +193,10 @@ def oracle(case, impl, judge):
 
 
 def classify(case, impl, why):
-    """C27-F1: every unaccounted accepted message is one that was still sitting in the channel
-    buffer when the writer goroutine exited after close."""
+    """C27-F1 (fixed by 305110c, so a VIOLATION if it shows again): every unaccounted accepted message
+    is one that was still sitting in the channel buffer when the writer goroutine exited after close."""
+    if why and why.startswith(("bad", "harness")) and not why.startswith("bad silently-dropped"):
+        return "C27-property-failure"   # not a known finding; keeps the shrinker on property failures
     if not why or not why.startswith("bad silently-dropped"):
         return None
     ob = _parse(impl)
@@ -203,7 +205,7 @@ def classify(case, impl, why):
     un = _unaccounted(case, ob)
     if un and ob["left"] and set(un) <= set(ob["left"]):
         return "C27-F1"
-    return None
+    return "C27-property-failure"
 
 
 def is_trivial(case, impl):
